@@ -17,6 +17,7 @@ type Val struct {
 	addr *Addr // set for pointer-typed values that are tracked as (cell,path)
 	clo  *closureVal
 	lit  *string // string constants keep their text
+	cb   string  // callback parameter modelled as "adds its argument to ghost set cb"
 }
 
 type closureVal struct {
@@ -75,6 +76,9 @@ type Contract struct {
 	Terminates  bool
 	Trusted     bool             // contract assumed, body not checked (listed in evidence)
 	Loops       map[int]LoopSpec // loop ordinal (by header block index order) -> spec
+	Callbacks   map[string]string // parameter name -> ghost set name
+	Traverses   []Traverse
+	Except      []string
 	Inline      []string         // callee name suffixes that must be inlined regardless of size
 	NoInline    []string
 	Line        int
@@ -119,6 +123,7 @@ type Engine struct {
 	curFrame    *frame
 	paramSyms   []paramSym
 	rootPre     *State
+	derivedCache map[*Contract][2][]Clause
 	bitsSyms    map[string]string // float parameter term -> symbol holding its bit pattern (math.Float32bits)
 }
 
